@@ -192,6 +192,73 @@ fn cover_span(n: &NodeRef<'_>) -> Option<std::ops::Range<usize>> {
     acc
 }
 
+/// every (key text, key span) of the document
+fn all_key_spans(root: &toml_edit::Item) -> Vec<(String, std::ops::Range<usize>)> {
+    fn value(v: &toml_edit::Value, out: &mut Vec<(String, std::ops::Range<usize>)>) {
+        match v {
+            toml_edit::Value::Array(a) => a.iter().for_each(|x| value(x, out)),
+            toml_edit::Value::InlineTable(t) => {
+                for (k, x) in t.iter() {
+                    if let Some(sp) = t.key(k).and_then(|k| k.span()) {
+                        out.push((k.to_string(), sp));
+                    }
+                    value(x, out);
+                }
+            }
+            _ => {}
+        }
+    }
+    fn table(t: &toml_edit::Table, out: &mut Vec<(String, std::ops::Range<usize>)>) {
+        for (k, it) in t.iter() {
+            if let Some(sp) = t.key(k).and_then(|k| k.span()) {
+                out.push((k.to_string(), sp));
+            }
+            match it {
+                toml_edit::Item::Value(v) => value(v, out),
+                toml_edit::Item::Table(s) => table(s, out),
+                toml_edit::Item::ArrayOfTables(a) => a.iter().for_each(|e| table(e, out)),
+                toml_edit::Item::None => {}
+            }
+        }
+    }
+    let mut out = Vec::new();
+    if let toml_edit::Item::Table(t) = root {
+        table(t, &mut out);
+    }
+    out
+}
+
+/// The library's *own* mismatch errors that name a key in their message must be located at a key of
+/// that name (asserted only when the message has that form, so a change of wording switches the check
+/// off instead of raising an alarm).
+fn check_named_key_location(text: &str, root: &toml_edit::Item, e: &RouteErr, out: &mut RunOut, route: &str) {
+    let (s, en) = match e.span {
+        Some(x) => x,
+        None => return,
+    };
+    let named: Option<String> = if let Some(rest) = e.message.strip_prefix("expected table key `") {
+        rest.split("`, but was `").nth(1).and_then(|r| r.strip_suffix('`')).map(|k| k.to_string())
+    } else if let Some(rest) = e.message.strip_prefix("unexpected keys in table: ") {
+        rest.split(", available keys: ").next().and_then(|ks| ks.split(", ").next()).map(|k| k.to_string())
+    } else {
+        None
+    };
+    if let Some(k) = named {
+        let spans: Vec<_> = all_key_spans(root).into_iter().filter(|(n, _)| *n == k).map(|(_, sp)| sp).collect();
+        if spans.is_empty() {
+            return;
+        }
+        out.stats.inc("oracle.named_key_location");
+        if !spans.iter().any(|sp| sp.start == s && sp.end == en) {
+            out.violate(
+                "C15/3",
+                format!("C15/named-key-not-located/route={route}"),
+                format!("{route}: the error names the key {k:?} but is located at {s}..{en} = {:?}, not at a key of that name ({spans:?})\n rendered:\n{}\n--- text ---\n{text}", text.get(s..en), e.rendered),
+            );
+        }
+    }
+}
+
 fn check_rendering(text: &str, e: &RouteErr, out: &mut RunOut, route: &str) {
     let (s, _) = match e.span {
         Some(x) => x,
@@ -357,6 +424,7 @@ pub fn enumerate_faults(text: &str, root: &toml_edit::Item, single: Option<Fault
                         out.violate("C15/2", format!("C15/span-out-of-bounds/route={route}"), format!("{route}: error span {s}..{en} is not inside the document on character boundaries\n--- text ---\n{text}"));
                     } else {
                         check_rendering(text, e, out, route);
+                        check_named_key_location(text, root, e, out, route);
                     }
                 }
                 if rendered_seen.insert(e.rendered.clone()) {
